@@ -2054,7 +2054,7 @@ pub fn swr_bits(prop: &str) -> u8 {
         "C02" => 2,
         "C03" => 4,
         "C04" => 8 | 16,
-        "C05" => 8,
+        "C05" => 1 | 4 | 8,
         "C06" => 1 | 4 | 32,
         "C09" => 1,
         _ => 0,
@@ -2163,5 +2163,281 @@ pub fn sweeps_for(prop: &str, r: &mut Rng, tier: &str) -> Vec<Case> {
             swr_cases(r, prop, &rows9, &all, 2 * n)
         }
         _ => vec![],
+    }
+}
+
+
+// ---------------------------------------------------------------------------------------------
+// API histories: what a host program may do with one CPU object, in any order
+// ---------------------------------------------------------------------------------------------
+
+/// projections of one history
+#[derive(Clone, Copy)]
+pub struct HistProj {
+    pub x: Proj,
+    pub t: Proj,
+    /// reads, slices, disassembly, budget replies
+    pub v: Proj,
+    /// memory deltas
+    pub d: Proj,
+    /// ask for the memory delta after every n-th operation (0: only at the end)
+    pub d_every: usize,
+}
+
+fn near(r: &mut Rng, s: &St) -> u16 {
+    let t = s.top;
+    match r.below(10) {
+        0 => s.pc.wrapping_add(r.below(6) as u16).wrapping_sub(1),
+        1 => s.sp.wrapping_sub(r.below(5) as u16).wrapping_add(1),
+        2 => t.wrapping_sub(r.below(3) as u16),
+        3 => t.wrapping_add(1 + r.below(2) as u16),
+        4 => match s.rom { Some((a, b)) => r.pick(&[a.wrapping_sub(1), a, a.wrapping_add(1), b.wrapping_sub(1), b, b.wrapping_add(1)]), None => r.u16() },
+        5 => r.pick(&[0u16, 1, 0xFFFF, 0xFFFE, 0x0066, 0x0038]),
+        6 => s.pair(H).wrapping_add(r.below(3) as u16).wrapping_sub(1),
+        _ => if t == 0xFFFF { r.u16() } else { (r.u16() as u32 % (t as u32 + 1)) as u16 },
+    }
+}
+
+/// One history: `ops` is the alphabet with weights.  Operations: X T I(masked or not: any byte) N NN II WB WW
+/// RB RW RLW RLD ROM SL CL CLTOP LB LBMISS DA DAPC SF SD PC REG WBPC NAP.
+pub fn api_history(r: &mut Rng, tag: &str, key: &str, s: St, ops: &[(&str, u32)], len: usize, hp: HistProj) -> Case {
+    let mut c = Case::new(tag.to_string());
+    c.key = key.to_string();
+    let total: u32 = ops.iter().map(|o| o.1).sum();
+    let t = s.top as usize;
+    let mut st = s.clone();
+    c.push(Cmd::SN(Box::new(s)), P_NONE);
+    for k in 0..len {
+        let mut pickn = r.below(total as u64) as u32;
+        let mut op = ops[0].0;
+        for (name, w) in ops {
+            if pickn < *w {
+                op = name;
+                break;
+            }
+            pickn -= w;
+        }
+        match op {
+            "X" => { c.push(Cmd::X, hp.x); }
+            "T" => { c.push(Cmd::T, hp.t); }
+            "I" => { c.push(Cmd::I(if r.bool() { r.pick(&RST_OPS) } else { v8(r) }), P_NONE); }
+            "N" => { c.push(Cmd::N, P_NONE); }
+            "NN" => { c.push(Cmd::N, P_NONE); c.push(Cmd::N, P_NONE); }
+            "II" => { c.push(Cmd::I(v8(r)), P_NONE); c.push(Cmd::I(r.pick(&RST_OPS)), P_NONE); }
+            "WB" => { c.push(Cmd::WB(near(r, &st), r.u8() | 1), P_NONE); }
+            "WW" => { c.push(Cmd::WW(near(r, &st), r.u16() | 0x0101), P_NONE); }
+            "RB" => { c.push(Cmd::RB(near(r, &st)), hp.v); }
+            "RW" => { c.push(Cmd::RW(near(r, &st)), hp.v); }
+            "RLW" => { c.push(Cmd::RLW(near(r, &st)), hp.v); }
+            "RLD" => { c.push(Cmd::RLD(near(r, &st)), hp.v); }
+            "ROM" => {
+                let a = near(r, &st);
+                let b = a.wrapping_add(r.pick(&[0u16, 1, 2, 7, 0x100]));
+                let (a, b) = if a <= b { (a, b) } else { (b, a) };
+                st.rom = Some((a, b));
+                c.push(Cmd::ROM(a, b), P_NONE);
+            }
+            "SL" => {
+                let a = near(r, &st) as usize % (t + 1);
+                let b = (a + r.below(40) as usize).min(t);
+                c.push(Cmd::SL(a, b), hp.v);
+            }
+            "CL" => {
+                let a = near(r, &st) as usize % (t + 1);
+                let b = (a + r.below(40) as usize).min(t);
+                c.push(Cmd::CL(a, b), P_NONE);
+            }
+            "CLTOP" => {
+                let a = t - (r.below(4) as usize).min(t);
+                c.push(Cmd::CL(a, t), P_NONE);
+            }
+            "LB" => {
+                let org = near(r, &st) as usize % (t + 1);
+                let len = r.below(((t + 1 - org) as u64).min(48) + 1) as usize;
+                c.push(Cmd::LB(org as u16, Some(len), 0x200 + r.below(50) as u32), hp.v);
+            }
+            "LBMISS" => { c.push(Cmd::LB((near(r, &st) as usize % (t + 1)) as u16, None, 0), hp.v); }
+            "DA" => { c.push(Cmd::DA(near(r, &st)), hp.v); }
+            "SF" => { c.push(Cmd::SF(r.pick(&[1u32, 2, 8, 16, 17, 28])), hp.v); }
+            "SD" => { c.push(Cmd::SD(r.pick(&[1u32, 2, 4, 5, 8, 10, 20])), P_NONE); }
+            "PC" => { let a = near(r, &st); st.pc = a; c.push(Cmd::SetPC(a), P_NONE); }
+            "REG" => { c.push(Cmd::HostReg(r.pick(&[0u8, 1, 2, 3, 4, 5, 7]), v16(r)), P_NONE); }
+            "WBPC" => { c.push(Cmd::WBPC(r.below(4) as i16 - 1, r.pick(&[0x00u8, 0x76, 0xC9, 0xCD, 0xCB, 0xDD, 0xED, 0xFD, 0x3E, 0xC3, 0xFF])), P_NONE); }
+            "NAP" => { c.push(Cmd::Nap(1 + r.below(3) as u32), P_NONE); }
+            _ => {}
+        }
+        if hp.d_every != 0 && k % hp.d_every == hp.d_every - 1 {
+            c.push(Cmd::D, hp.d);
+        }
+    }
+    c.push(Cmd::D, hp.d);
+    c
+}
+
+/// a start state for histories: a program of control-relevant instructions at PC on a seeded image
+pub fn hist_state(r: &mut Rng, k: usize) -> St {
+    let mut s = rand_state(r);
+    s = with_ctl(r, s);
+    s.seed = SEEDS[k % 6];
+    s.top = [0xFFFFu16, 0x03FF, 0xFFFF, 0x7FFF][k % 4];
+    if s.top != 0xFFFF {
+        s.pc %= s.top + 1;
+        s.sp = (s.sp % (s.top + 1)) | 1;
+    }
+    if k % 3 == 0 {
+        let a = near(r, &s);
+        s.rom = Some((a, a.wrapping_add(r.pick(&[0u16, 1, 3, 0x40])).max(a)));
+    }
+    let code: [&[u8]; 12] = [&[0xFB], &[0xF3], &[0x76], &[0xED, 0x45], &[0xED, 0x4D], &[0xED, 0x56], &[0xED, 0x5E], &[0xED, 0x57],
+                             &[0xC7], &[0xCD, 0x00, 0x01], &[0x00], &[0xF5]];
+    let mut a = s.pc;
+    for _ in 0..r.below(5) {
+        let b = code[r.below(12) as usize];
+        s.poke(a, b);
+        a = a.wrapping_add(b.len() as u16);
+    }
+    s
+}
+
+/// the API histories each property adds to its case list
+pub fn hist_for(prop: &str, r: &mut Rng, tier: &str) -> Vec<Case> {
+    let q = quick(tier);
+    let mut cases = vec![];
+    let v = Proj { other: true, ..NONE };
+    let mem = p_mem();
+    let (n, len): (usize, usize) = match prop {
+        "C07" | "C08" | "C20" => (if q { 300 } else { 6000 }, 30),
+        "C11" | "C13" | "C14" => (if q { 400 } else { 8000 }, 24),
+        "C12" => (if q { 200 } else { 4000 }, 40),
+        "C15" | "C16" => (if q { 300 } else { 6000 }, 24),
+        "C17" => (if q { 300 } else { 6000 }, 40),
+        "C18" => (if q { 200 } else { 4000 }, 300),
+        _ => (0, 0),
+    };
+    for k in 0..n {
+        let mut s = hist_state(r, k);
+        let (ops, hp): (Vec<(&str, u32)>, HistProj) = match prop {
+            // ROM bytes survive everything the CPU and the byte/word stores do, whatever the host does around them
+            "C07" => {
+                if s.rom.is_none() {
+                    let a = near(r, &s);
+                    s.rom = Some((a, a.wrapping_add(r.pick(&[0u16, 1, 3, 0x40])).max(a)));
+                }
+                (vec![("X", 8), ("WB", 6), ("WW", 6), ("ROM", 1), ("LBMISS", 2), ("I", 1), ("N", 1), ("PC", 1), ("REG", 2), ("RB", 1), ("SL", 1), ("DA", 1)],
+                 HistProj { x: P_NONE, t: P_NONE, v, d: mem, d_every: 3 })
+            }
+            "C08" => {
+                s.halt = true;
+                (vec![("WB", 8), ("WW", 8), ("RB", 5), ("RW", 5), ("RLW", 3), ("RLD", 3), ("ROM", 1), ("CL", 2), ("CLTOP", 2), ("SL", 2), ("LB", 1), ("LBMISS", 1)],
+                 HistProj { x: P_NONE, t: P_NONE, v, d: mem, d_every: 4 })
+            }
+            "C20" => {
+                s.halt = true;
+                s.top = [0x3Fu16, 0x3FF, 0xFFFF][k % 3];
+                if s.top != 0xFFFF {
+                    s.pc %= s.top + 1;
+                }
+                (vec![("LB", 6), ("LBMISS", 2), ("CL", 4), ("CLTOP", 2), ("SL", 4), ("WB", 3), ("WW", 2), ("RB", 2), ("RW", 1), ("ROM", 1)],
+                 HistProj { x: P_NONE, t: P_NONE, v, d: mem, d_every: 2 })
+            }
+            "C11" | "C13" | "C14" => {
+                let pj = p_ctl();
+                (vec![("X", 12), ("I", 4), ("N", 2), ("NN", 2), ("II", 1), ("WBPC", 2), ("PC", 1), ("REG", 1), ("T", 1)],
+                 HistProj { x: pj, t: Proj { slice: false, ..pj }, v, d: mem, d_every: 8 })
+            }
+            "C15" => (vec![("X", 8), ("DAPC", 0), ("DA", 8), ("WBPC", 3), ("WB", 2), ("PC", 2), ("I", 1), ("REG", 1)],
+                      HistProj { x: Proj { pc: true, ..NONE }, t: P_NONE, v: Proj { other: true, da_size_only: true, ..NONE }, d: P_NONE, d_every: 0 }),
+            "C16" => (vec![("X", 6), ("DA", 10), ("WBPC", 2), ("WB", 3), ("WW", 2), ("PC", 3), ("I", 1), ("REG", 3)],
+                      HistProj { x: P_NONE, t: P_NONE, v, d: P_NONE, d_every: 0 }),
+            "C17" => {
+                // set_freq is specified for slice durations that divide 1000
+                s.sdur = r.pick(&[1u32, 2, 4, 5, 8, 10, 20]);
+                let pj = Proj { r: false, dbg: 0, slice: true, ..FULL };
+                (vec![("X", 10), ("T", 4), ("I", 2), ("N", 1), ("NN", 1), ("WB", 2), ("WW", 1), ("WBPC", 1), ("ROM", 1), ("LB", 1), ("LBMISS", 1), ("CL", 1),
+                      ("DA", 1), ("RB", 1), ("SF", 1), ("SD", 1), ("PC", 1), ("REG", 1)],
+                 HistProj { x: pj, t: pj, v, d: mem, d_every: 8 })
+            }
+            "C18" => {
+                s.smax = [3u32, 40, 200, 1000, 35000][k % 5];
+                s.sdur = [1u32, 4, 20][k % 3];
+                s.scur = if k % 2 == 0 { 0 } else { r.below(s.smax as u64 + 100) as u32 };
+                let pj = Proj { slice: true, ..NONE };
+                (vec![("T", 60), ("SF", 1), ("SD", 1), ("I", 2), ("N", 1), ("X", 2), ("WBPC", 1), ("PC", 1)],
+                 HistProj { x: P_NONE, t: pj, v, d: P_NONE, d_every: 0 })
+            }
+            _ => (vec![], HistProj { x: P_NONE, t: P_NONE, v, d: P_NONE, d_every: 0 }),
+        };
+        let ops: Vec<(&str, u32)> = ops.into_iter().filter(|o| o.1 > 0).collect();
+        if ops.is_empty() {
+            break;
+        }
+        cases.push(api_history(r, &format!("api-history/{}", k % 8), "api-history", s, &ops, len, hp));
+    }
+    if prop == "C12" {
+        // twins on fresh objects: a masked request must be invisible to timed stepping as well (same slice counter,
+        // same calls at which a sleep is requested)
+        for k in 0..n {
+            let mut s = hist_state(r, k);
+            s.iff1 = false;
+            s.halt = false;
+            s.int = None;
+            s.nmi = false;
+            s.pc = 0x40 + s.pc % (s.top - 0x100);
+            s.smax = [3u32, 40, 200, 1000][k % 4];
+            s.sdur = 1;
+            s.scur = 0;
+            // a program that keeps interrupts disabled: no EI / RETN in the image region it runs through is not
+            // guaranteed, so the twins are compared only while IFF1 stays clear in both (relation guarded by equality of ctl)
+            let mut c = Case::new(format!("timed-masked/{}", k % 4));
+            c.key = "timed-masked".into();
+            let pj = Proj { r: false, dbg: 0, latch: false, slice: true, ..FULL };
+            let at: Vec<usize> = (0..3).map(|_| r.below(len as u64) as usize).collect();
+            let pc = s.pc;
+            // DI-only straight-line code: NOPs, loads and arithmetic, no EI/RETN/HALT
+            let fill: Vec<u8> = (0..len * 2).map(|_| r.pick(&[0x00u8, 0x3C, 0x04, 0x0D, 0x87, 0xA8, 0x2F, 0x37, 0xF3, 0x23, 0x1B])).collect();
+            s.poke(pc, &fill);
+            let mut runs: Vec<Vec<usize>> = vec![];
+            for twin in 0..2 {
+                c.push(Cmd::SN(Box::new(s.clone())), P_NONE);
+                let mut ix = vec![];
+                for j in 0..len {
+                    if twin == 1 && at.contains(&j) {
+                        c.push(Cmd::I(if j % 2 == 0 { r.pick(&RST_OPS) } else { v8(r) }), P_NONE);
+                    }
+                    ix.push(c.push(Cmd::T, Proj { slice: true, ..NONE }));
+                }
+                ix.push(c.push(Cmd::D, P_NONE));
+                runs.push(ix);
+            }
+            for j in 0..len {
+                c.rels.push(Rel { a: runs[0][j], b: runs[1][j], proj: pj, swap_xy: false, what: "masked request invisible to timed stepping" });
+            }
+            c.rels.push(Rel { a: runs[0][len], b: runs[1][len], proj: p_mem(), swap_xy: false, what: "masked request invisible (memory)" });
+            cases.push(c);
+        }
+    }
+    cases
+}
+
+/// the projection a property applies to a line of a history, by command (used when a failing history is minimised)
+pub fn hist_line_proj(prop: &str, cmd: &Cmd) -> Proj {
+    let v = Proj { other: true, ..NONE };
+    let mem = p_mem();
+    let ctl = p_ctl();
+    let (x, t, vv, d) = match prop {
+        "C07" | "C08" | "C20" => (P_NONE, P_NONE, v, mem),
+        "C11" | "C13" | "C14" => (ctl, Proj { slice: false, ..ctl }, v, mem),
+        "C15" => (Proj { pc: true, ..NONE }, P_NONE, Proj { other: true, da_size_only: true, ..NONE }, P_NONE),
+        "C16" => (P_NONE, P_NONE, v, P_NONE),
+        "C17" => { let pj = Proj { r: false, dbg: 0, slice: true, ..FULL }; (pj, pj, v, mem) }
+        "C18" => (P_NONE, Proj { slice: true, ..NONE }, v, P_NONE),
+        _ => (P_NONE, P_NONE, P_NONE, P_NONE),
+    };
+    match cmd {
+        Cmd::X => x,
+        Cmd::T => t,
+        Cmd::D => d,
+        Cmd::S(_) | Cmd::SN(_) | Cmd::SR(_) | Cmd::P(_) | Cmd::I(_) | Cmd::N | Cmd::WB(..) | Cmd::WW(..) | Cmd::ROM(..) | Cmd::CL(..) | Cmd::SD(_) | Cmd::Nap(_) => P_NONE,
+        _ => vv,
     }
 }
